@@ -3,11 +3,13 @@
 (* C06 monitor.  One trace per generated package (= one declaration):      *)
 (*   [id   : STRING,                                                       *)
 (*    decl : Seq(member)            the declaration printed by Gen_Dispatch*)
+(*    first : member                the response the document lists first  *)
 (*    core : STRING                 dotted name of the package's core      *)
 (*    ev   : Seq(outcome event)]                                           *)
 (* An outcome event is what the CALLER of the generated method saw for one *)
 (* served status under one transport:                                      *)
-(*   [status, transport : "bundled" | "pass", kind : "return" | "raise" |  *)
+(*   [status, transport : "bundled" | "pass", body : the kind of body the  *)
+(*    server sent (DispatchCore!Bodies), kind : "return" | "raise" |       *)
 (*    "items", mro : Seq(class name), mods : Seq(module of that class),    *)
 (*    exc : type name, status_attr : Nat (0 = no int .status_code),        *)
 (*    has_response : BOOLEAN (.response is an httpx.Response),             *)
@@ -48,12 +50,12 @@ Obs(t, e) ==
           hasResponse |-> (e.has_response /\ e.response_status = e.status), exc |-> e.exc]
     ELSE Return
 
-Empty == [k \in {} |-> [n |-> 0, first |-> 0]]
-Add(acc, FS, s) ==
+Empty == [k \in {} |-> [n |-> 0, first |-> 0, fbody |-> ""]]
+Add(acc, FS, s, b) ==
   [k \in (DOMAIN acc) \cup FS |->
-      IF k \in FS THEN (IF k \in DOMAIN acc THEN [n |-> acc[k].n + 1, first |-> acc[k].first] ELSE [n |-> 1, first |-> s])
+      IF k \in FS THEN (IF k \in DOMAIN acc THEN [acc[k] EXCEPT !.n = @ + 1] ELSE [n |-> 1, first |-> s, fbody |-> b])
       ELSE acc[k]]
-AsSeq(acc) == SetToSeq({[clause |-> k.clause, locus |-> k.locus, n |-> acc[k].n, first |-> acc[k].first] : k \in DOMAIN acc})
+AsSeq(acc) == SetToSeq({[clause |-> k.clause, locus |-> k.locus, n |-> acc[k].n, first |-> acc[k].first, fbody |-> acc[k].fbody] : k \in DOMAIN acc})
 
 B(b) == IF b THEN 1 ELSE 0
 
@@ -61,7 +63,7 @@ Init ==
   /\ tid \in 1..Len(Traces)
   /\ l = 1
   /\ fails = Empty /\ mfails = Empty
-  /\ drift = [n |-> 0, status |-> 0, transport |-> ""]
+  /\ drift = [n |-> 0, status |-> 0, transport |-> "", body |-> ""]
   /\ ante = [calls |-> 0, non2xx |-> 0, raised |-> 0, c4xx |-> 0, c5xx |-> 0]
 
 Step ==
@@ -70,11 +72,11 @@ Step ==
          d  == ToSet(t.decl)
          e  == t.ev[l]
          o  == Obs(t, e)
-         m  == ModelOutcome("as_is", d, e.transport, e.status)
-     IN  /\ fails'  = Add(fails, Failures(d, e.transport, e.status, o), e.status)
-         /\ mfails' = Add(mfails, Failures(d, e.transport, e.status, m), e.status)
+         m  == ModelOutcome("as_is", d, t.first, e.transport, e.status, e.body)
+     IN  /\ fails'  = Add(fails, Failures(d, e.transport, e.status, e.body, o), e.status, e.body)
+         /\ mfails' = Add(mfails, Failures(d, e.transport, e.status, e.body, m), e.status, e.body)
          /\ drift'  = IF Project(o) = Project(m) THEN drift
-                      ELSE IF drift.n = 0 THEN [n |-> 1, status |-> e.status, transport |-> e.transport]
+                      ELSE IF drift.n = 0 THEN [n |-> 1, status |-> e.status, transport |-> e.transport, body |-> e.body]
                       ELSE [drift EXCEPT !.n = @ + 1]
          /\ ante'   = [calls  |-> ante.calls + 1,
                        non2xx |-> ante.non2xx + B(~Is2xx(e.status)),
@@ -92,12 +94,14 @@ Fin ==
          d == ToSet(t.decl)
      IN PrintT("VERDICT " \o ToJson([
             id         |-> t.id,
-            wellformed |-> WellFormed(d) /\ \A i \in 1..Len(t.ev) : t.ev[i].status \in 100..599 /\ t.ev[i].transport \in {"bundled", "pass"},
+            wellformed |-> WellFormed(d) /\ t.first \in d
+                           /\ \A i \in 1..Len(t.ev) : t.ev[i].status \in 100..599 /\ t.ev[i].transport \in {"bundled", "pass"} /\ t.ev[i].body \in Bodies,
             importable_model |-> Importable("as_is", d),
+            primary_model    |-> Primary(d, t.first),
             fails       |-> AsSeq(fails),
             model_fails |-> AsSeq(mfails),
             ndrift      |-> drift.n,
-            drift_first |-> [status |-> drift.status, transport |-> drift.transport],
+            drift_first |-> [status |-> drift.status, transport |-> drift.transport, body |-> drift.body],
             ante        |-> ante]))
 
 Spec == Init /\ [][Step \/ Fin]_vars
